@@ -29,6 +29,9 @@ const (
 	kGenRequote = "generate-requoted-newline"
 	// the guard "end+offset > 1<<31-1" is computed in int64 and wraps around.
 	kGenOffWrap = "generate-offset-wraps"
+	// a $GENERATE line that ends inside a quote which is never closed is expanded; the quote state
+	// carries over from step to step, so every second step is lexed inside out.
+	kGenOpenQuote = "generate-unterminated-quote"
 	// C05's finding: the token behind a field is skipped without a look at it. For C07 the quote
 	// that is skipped is an unterminated one and the rest of the zone disappears in it.
 	kSeparator = "separator-token-unchecked"
@@ -228,6 +231,16 @@ func genTplPieces(t *rapid.T, c *tplCase) {
 		}
 		c.Notes = append(c.Notes, "line ends removed")
 	}
+	if pbt.Known(kGenOpenQuote) {
+		if text, _, _ := c.text(); generateInOpenQuote(text) {
+			pbt.Excluded(kGenOpenQuote)
+			c.Tpl += " \""
+			if text, _, _ := c.text(); generateInOpenQuote(text) {
+				c.Tpl = strings.ReplaceAll(c.Tpl, "\"", "x")
+			}
+			c.Notes = append(c.Notes, "open quote closed")
+		}
+	}
 }
 
 // requotedLineEnd delimits the class of kGenRequote: a quote that changes its meaning between the
@@ -388,7 +401,7 @@ func checkTpl(c tplCase) error {
 		if len(c.Tpl) > 10000 {
 			classes = append(classes, "tpl:long")
 		}
-		if out.N-np > int(steps) {
+		if out.N-np-ns-strings.Count(c.Tpl, "\n") > int(steps) {
 			classes = append(classes, "tpl:more-records-than-steps")
 		}
 	} else {
@@ -408,9 +421,12 @@ func checkTpl(c tplCase) error {
 	if viol != nil {
 		return pbt.Errf("%v\n%s", viol, ctx())
 	}
-	// the statement's bound, for one directive between np and ns plain records
-	if got := out.N - np - ns; got > zm.MaxGenerateSteps {
-		return pbt.Errf("one $GENERATE directive yielded at least %d records (limit %d)\n%s", got, zm.MaxGenerateSteps, ctx())
+	// the statement's bound for the one directive of the text: np plain records precede it; every
+	// physical line behind its first one is either part of its template (and then yields nothing
+	// by itself) or a line of its own (at most one record)
+	behind := strings.Count(tpl, "\n") + ns
+	if got := out.N - np - behind; got > zm.MaxGenerateSteps {
+		return pbt.Errf("one $GENERATE directive yielded at least %d records (limit %d; %d records returned, %d lines before and %d behind the directive's first line)\n%s", got, zm.MaxGenerateSteps, out.N, np, behind, ctx())
 	}
 	if c.Kind != "offset" {
 		return nil
@@ -466,6 +482,13 @@ func eachTpl(emit func(tplCase)) {
 	}
 	emit(tplCase{Kind: "pieces", Start: 0, Stop: 65535, Step: 1, Tpl: "foo$ TXT \"a\nbar$ TXT b\nbaz$ TXT c\"", Prefix: 1, Suffix: true})
 	emit(tplCase{Kind: "pieces", Start: 0, Stop: 65535, Step: 1, Tpl: "foo$ TXT \"abc\\\\\"", Prefix: 1, Suffix: true})
+	if pbt.Known(kGenOpenQuote) {
+		pbt.Excluded(kGenOpenQuote)
+	} else {
+		emit(tplCase{Kind: "pieces", Start: 0, Stop: 65535, Step: 1, Tpl: "a$ TXT \"x\nb$ TXT y\nc$ TXT z", Prefix: 1})
+		emit(tplCase{Kind: "pieces", Start: 0, Stop: 65535, Step: 1, Tpl: "a$ TXT \"x", Prefix: 1, Suffix: true})
+		emit(tplCase{Kind: "pieces", Start: 1, Stop: 3, Step: 1, Tpl: "a$ TXT \"x\nb$ TXT y", Suffix: true})
+	}
 	if pbt.Known(kGenOffWrap) {
 		pbt.Excluded(kGenOffWrap)
 	} else {
@@ -563,6 +586,17 @@ func init() {
 		}
 		if out.N > zm.MaxGenerateSteps {
 			return fmt.Errorf("one $GENERATE directive yielded %d records (limit %d), err=%v", out.N, zm.MaxGenerateSteps, out.Err)
+		}
+		return nil
+	})
+	c07Probe(kGenOpenQuote, func() error {
+		text := "$GENERATE 0-65535 a$ TXT \"x\nb$ TXT y\nc$ TXT z\n"
+		out, viol := runParser(map[string]string{"top.db": text}, parserCfg{File: "top.db", Origin: "example.", HasDefTTL: true, DefTTL: 5}, nil)
+		if viol != nil {
+			return fmt.Errorf("%s", strings.SplitN(viol.Error(), "\n", 2)[0])
+		}
+		if out.N > zm.MaxGenerateSteps+2 {
+			return fmt.Errorf("one $GENERATE directive (whose line ends inside a quote that is never closed) yielded %d records, err=%v", out.N, out.Err)
 		}
 		return nil
 	})
